@@ -2,6 +2,7 @@ import QV.Drive.Util
 import QV.Drive.BExpJson
 import QV.Drive.CircJson
 import QV.Model.Compiler
+import QV.Model.CompilerClass
 namespace QV.Drive.Comp
 open Lean QV QV.Compiler QV.Drive
 
@@ -42,7 +43,9 @@ def compileOp (j : Json) : R Json := do
     let c := validateClean gs s.qc.numQubits nIn outs
     let wf := wellFormed gs s.qc.numQubits
     let extra : List (String × Json) := [("valid", toJson v), ("clean", toJson c), ("wellformed", toJson wf),
-      ("in_fragment", toJson (inFragment inputs defs rets))]
+      ("in_fragment", toJson (inFragment inputs defs rets)),
+      ("in_clean_fragment", toJson (unc && inCleanFragment inputs defs rets)),
+      ("in_xor_fragment", toJson (unc && inXorFragment inputs defs rets))]
     let xorPart : List (String × Json) :=
       match rets, outs with
       | [r], [q] =>
